@@ -302,9 +302,10 @@ package abi
 //@   ensures[reserialise] err == nil ==> quoteBytes(as(q, "*tdx.QuoteV4")) == seq(b)
 
 // SignatureToDER builds the ASN.1 SEQUENCE { INTEGER r, INTEGER s } with
-// golang.org/x/crypto/cryptobyte; the encoder is trusted (assumed contract).
+// golang.org/x/crypto/cryptobyte.  The body is verified: the continuation
+// passed to AddASN1 is executed on a child builder; only the builder's own
+// operations (AddASN1BigInt, the TLV wrapping, Bytes) are assumed contracts.
 //@ func SignatureToDER(x) (r, err)
-//@   trusted
 //@   ensures[iff] err == nil <==> len(x) == 64
 //@   ensures[der] err == nil ==> seq(r) == derSig(seq(x)[0:32], seq(x)[32:64])
 //@   fresh r
